@@ -27,6 +27,24 @@
 #define LL_FPTOSI_OK16(x) ((x) > -32769.0 && (x) < 32768.0)
 #define LL_FPTOSI_OK8(x) ((x) > -129.0 && (x) < 128.0)
 
+/* relational operators on pointers: flat address space on the real target; under cbmc pointers into the
+   same object compare by signed offset (a pointer formed before the start of its object still compares below it) */
+#ifdef __CPROVER__
+#ifndef LL_OBJBITS
+#define LL_OBJBITS 8
+#endif
+/* cbmc keeps the offset in 64-LL_OBJBITS bits; sign-extend it so that 'object - k' has offset -k */
+#define LL_PTR_OFF(a) (((int64_t)((uint64_t)__CPROVER_POINTER_OFFSET((const void *)(a)) << LL_OBJBITS)) >> LL_OBJBITS)
+#define LL_PTR_CMP(a, b, op) ((__CPROVER_POINTER_OBJECT((const void *)(a)) == __CPROVER_POINTER_OBJECT((const void *)(b))) \
+    ? (LL_PTR_OFF(a) op LL_PTR_OFF(b)) : ((uintptr_t)(a) op (uintptr_t)(b)))
+#else
+#define LL_PTR_CMP(a, b, op) ((uintptr_t)(a) op (uintptr_t)(b))
+#endif
+#define LL_PTR_LT(a, b) LL_PTR_CMP(a, b, <)
+#define LL_PTR_LE(a, b) LL_PTR_CMP(a, b, <=)
+#define LL_PTR_GT(a, b) LL_PTR_CMP(a, b, >)
+#define LL_PTR_GE(a, b) LL_PTR_CMP(a, b, >=)
+
 #define LL_malloc malloc
 #define LL_calloc calloc
 #define LL_realloc realloc
